@@ -153,7 +153,11 @@ def run_case(case):
                                 x = solver.solve(b.copy(), trans=trans, initial_sol=(lambda g=g: g.copy()))
                     except LinearSolverError:
                         stats["raised"] += 1
-                        if cls in ("sym", "unsym") and cond <= 1e4:
+                        # a guess whose own rounding noise (eps |A| |guess|) exceeds the solver's residual target cannot be refined to it:
+                        # an iterative solver may then report non-convergence
+                        noise = 0.0 if g is None else 1e-15 * float(np.linalg.norm(A)) * float(np.linalg.norm(g))
+                        target = max(1e-8, 1e-5 * float(np.linalg.norm(b))) if sname == "GMRES" else 1e-5 * (float(np.linalg.norm(A)) * float(np.linalg.norm(exact)) + float(np.linalg.norm(b))) if exact is not None else 0.0
+                        if cls in ("sym", "unsym") and cond <= 1e4 and not (sname != "LU" and noise > target):
                             bad(f"solve_raised|{sname}", f"LinearSolverError on a nonsingular system (cond {cond:.1e})", at)
                         continue
                     except Exception as e:
